@@ -116,7 +116,9 @@ fn call_strategy(pal: Vec<char>) -> BoxedStrategy<Call> {
                 c.clone_mode = m;
                 // a small haystack moved behind 64k+ filler characters (offsets beyond 16 bits)
                 if far > 0 && c.hay.tile_to == 0 && c.hay.motif.len() <= 60 {
-                    c.hay = Text { head: vec![], motif: vec!['q'], tile_to: far, tail: c.hay.motif.clone() };
+                    // behind the filler, or split around it (one gap of 64k+ characters)
+                    let k = if far % 2 == 0 { 0 } else { c.hay.motif.len().min(1) };
+                    c.hay = Text { head: c.hay.motif[..k].to_vec(), motif: vec!['q'], tile_to: far, tail: c.hay.motif[k..].to_vec() };
                 }
                 c
             })
